@@ -499,7 +499,7 @@ func (g *hgen) spine(b int) *sx.Node {
 	}
 	alts := []alt{
 		{6, 6, func() *sx.Node { return nestedScope(b) }},                                                     // a scope as the property type
-		{7, 3, func() *sx.Node { return dList(nestedScope(b-1), nil, ip(3)) }},                                 // ... as a list item
+		{7, 3, func() *sx.Node { return dList(nestedScope(b-1), nil, ip(2)) }},                                 // ... as a list item
 		{7, 2, func() *sx.Node { return dMap(g.keyType(), nestedScope(b-1), nil, ip(4)) }},                     // ... as a map value
 		{8, 3, func() *sx.Node { // ... as a one-of member, next to an object member
 			intKeys := r.Bool()
@@ -519,7 +519,7 @@ func (g *hgen) spine(b int) *sx.Node {
 			}
 			return sx.L(sx.A("oneof"), sx.B(intKeys), l, sx.S(pick(r, []string{"kind", "_type", "t"})), sx.B(false))
 		}},
-		{2, 3, func() *sx.Node { return dList(g.spine(b-1), ip(int64(r.Intn(2))), ip(int64(2+r.Intn(3)))) }},
+		{2, 3, func() *sx.Node { return dList(g.spine(b-1), ip(int64(r.Intn(2))), ip(int64(1+r.Intn(2)))) }},
 		{2, 2, func() *sx.Node { return dMap(g.keyType(), g.spine(b-1), nil, ip(4)) }},
 		{4, 2, func() *sx.Node { // an inline object
 			g.nscope++
@@ -564,6 +564,19 @@ func (g *hgen) spine(b int) *sx.Node {
 		k -= a.w
 	}
 	return g.leaf(b)
+}
+
+// helloRaw: a raw input for a (deep) data schema that reaches the leaves but stays small: lists of lists multiply.
+func helloRaw(r *Rng, s *sx.Node, depth int) *sx.Node {
+	for i := 0; i < 8; i++ {
+		if v := rawFor(r, s, scopeTable(s), depth); len(v.String()) <= 4000 {
+			return v
+		}
+		if i >= 4 {
+			depth = depth * 2 / 3
+		}
+	}
+	return rawFor(r, s, scopeTable(s), 2)
 }
 
 // shallow: an ordinary generated scope that fits in b levels.
@@ -620,7 +633,7 @@ func genHelloPlugin(r *Rng, nest int) *sx.Node {
 	var ops []*sx.Node
 	for j := 0; j < 3*len(ordered); j++ {
 		s := ordered[j%len(ordered)]
-		v := rawFor(r, s, scopeTable(s), 26)
+		v := helloRaw(r, s, 26)
 		if r.Chance(35) {
 			v = mutate(r, v)
 		}
@@ -644,7 +657,7 @@ func c09HelloLadder() []*sx.Node {
 			id := fmt.Sprintf("L%d", k)
 			return dScope(id, dObjectD(id, false, dprop{name: "deep", t: t, disp: none(), required: true}))
 		},
-		"list": func(t *sx.Node, k int) *sx.Node { return dList(t, nil, nil) },
+		"list": func(t *sx.Node, k int) *sx.Node { return dList(t, ip(1), ip(2)) },
 		"map":  func(t *sx.Node, k int) *sx.Node { return dMap(dString(ip(1), nil, nil), t, nil, nil) },
 		"oneof": func(t *sx.Node, k int) *sx.Node {
 			m := dObjectD(fmt.Sprintf("M%d", k), false, dprop{name: "deep", t: t, disp: none(), required: true})
@@ -669,7 +682,7 @@ func c09HelloLadder() []*sx.Node {
 				pl := sx.L(sx.A("plugin"), sx.L(sx.L(sx.A("step"), sx.S("s"), in,
 					sx.L(sx.L(sx.S("success"), o, none(), sx.B(false))), sx.L(), sx.L(), none())))
 				n := hPluginNest(pl)
-				if n < c09HelloMaxNest-5 || n > c09HelloMaxNest+5 || seen[n] {
+				if n < c09HelloMaxNest-4 || n > c09HelloMaxNest+3 || seen[n] {
 					continue
 				}
 				seen[n] = true
@@ -677,7 +690,7 @@ func c09HelloLadder() []*sx.Node {
 				var ops []*sx.Node
 				for j := 0; j < 4; j++ {
 					s := []*sx.Node{in, o}[j%2]
-					ops = append(ops, op("u", rawFor(r, s, scopeTable(s), 70)))
+					ops = append(ops, op("u", helloRaw(r, s, 70)))
 				}
 				inputs := sx.L(sx.A("inputs"))
 				for _, x := range ops {
@@ -693,7 +706,7 @@ func c09HelloLadder() []*sx.Node {
 func init() {
 	families["c09hello"] = &Family{
 		Gen: func(r *Rng, tier string, emit func(*sx.Node)) {
-			n := 160
+			n := 120
 			if tier == "thorough" {
 				n = 2500
 			}
